@@ -106,6 +106,7 @@ PROPS = {
         "parts": [
             part("v2in", "TestVerif_C11", "generated", 1200, 16000, shards=(8, 16)),
             part("v2in", "TestVerif_C11_EveryDoc", "every-document", 0, 0, shards=(4, 16), enum=True),
+            part("v2in", "TestVerif_C11_Offsets", "non-ascii-offset-sweep", 0, 0, shards=(4, 16), enum=True),
         ],
     },
     "C12": {
